@@ -3,6 +3,8 @@ import common
 import facts
 import hirq as H
 import e3_arith as e3
+import fieldflow as ff
+import mustpass as mp
 from e1_panicpath import defs_of, guard_holds
 from ruleutil import find_fn
 
@@ -148,6 +150,29 @@ def check(rep, F, tier, replay=None):
     who_assets_rule(rep, F)
     from ruleutil import arith_unused_rule
     arith_unused_rule(rep, F, None)
+    # SIGN-gate: an unsigned view of a signed big integer exists only for non-negative values
+    rep.rule("SIGN-gate", "BigInt::as_u64 builds Some(..) only in blocks dominated by a test of the value's sign (a comparison of num_bigint::Sign, sign() / is_negative() / is_positive(), or an ordering test against zero): a negative big integer has no unsigned value - without the test BigInt(-1).as_u64() is Some(1), the magnitude")
+    fid_ = find_fn(rep, F, "BigInt::as_u64")
+    if fid_:
+        fn_ = F.fns[fid_]
+        org_ = ff.Origins(F, fid_)
+        somes = [bi for bi, bb in enumerate(fn_["bbs"]) if not bb["c"] for st in bb["st"] if st[1] == "=" and st[3][0] == "agg" and st[3][3] == "Some" and (st[2] == "_0" or st[2].startswith("_0|"))]
+        if not somes:
+            rep.lost("BigInt::as_u64 builds no Some(..) directly (re-anchor SIGN-gate)")
+        for bi in somes:
+            rep.inst("SIGN-gate")
+            ok = False
+            for s_, edge, d in mp.dominating_guards(F, fid_, bi, org_):
+                cal = d.get("callee") or ""
+                if d["kind"] == "call" and ("num_bigint::Sign" in cal or cal.rsplit("::", 1)[-1] in ("sign", "is_negative", "is_positive", "signum")):
+                    ok = True
+                if d["kind"] == "call" and "PartialOrd" in cal and any(x.startswith("call:") and x.split("@")[0].endswith("::zero") for a in d["args"] for x in a):
+                    ok = True
+                if d["kind"] == "discr" and any("Sign" in x for x in d.get("of", [])):
+                    ok = True
+            if not ok:
+                rep.violation("SIGN-gate", "BigInt::as_u64", "BigInt::as_u64 answers Some(..) on a path that never tests the sign: for a negative value whose magnitude fits into 64 bits it returns the magnitude (BigInt(-1).as_u64() = Some(1)) instead of None", {})
+                break
     from ruleutil import value_sub_total_rule
     value_sub_total_rule(rep, F)
     return rep.finish(
